@@ -158,7 +158,7 @@ class SymEx:
         self.depth = 0
 
     # -- entry ----------------------------------------------------------------------------
-    def run(self, func, args=None, state=None, with_self=False):
+    def run(self, func, args=None, state=None, with_self=False, kwargs=None):
         """-> list of (PathState, value); value None for an implicit ``return None``"""
         st = state or PathState()
         params = func.params
@@ -166,8 +166,23 @@ class SymEx:
         a = list(args or [])
         if func.is_method and not with_self:
             a = [SelfV(func.cls)] + a
+        defaults = func.node.args.defaults
+        ndef = len(defaults)
         for i, p in enumerate(params):
-            env[p] = a[i] if i < len(a) else Sym(p)
+            if i < len(a):
+                env[p] = a[i]
+                continue
+            k = i - (len(params) - ndef)
+            d = defaults[k] if k >= 0 else None
+            if isinstance(d, ast.Constant):
+                env[p] = Const(d.value)
+            elif isinstance(d, ast.List) and not d.elts:
+                env[p] = ListV([])
+            else:
+                env[p] = Sym(p)
+        for k2, v2 in (kwargs or {}).items():
+            if k2 in params:
+                env[k2] = v2
         if func.node.args.vararg is not None:
             env[func.node.args.vararg.arg] = ListV(a[len(params):])
         saved = st.env
@@ -659,7 +674,7 @@ class SymEx:
             if self.inline(m) and self.depth < self.max_depth:
                 self.depth += 1
                 try:
-                    return self.run(m, [recv] + args, st, with_self=True)
+                    return self.run(m, [recv] + args, st, with_self=True, kwargs=kw)
                 finally:
                     self.depth -= 1
             return [(st, CallV(m.name, args, recv=None if isinstance(recv, SelfV) else recv, node=e))]
@@ -672,7 +687,7 @@ class SymEx:
             if self.inline(m) and self.depth < self.max_depth:
                 self.depth += 1
                 try:
-                    return self.run(m, args, st)
+                    return self.run(m, args, st, kwargs=kw)
                 finally:
                     self.depth -= 1
             return [(st, CallV(m.name, args, node=e))]
